@@ -19,7 +19,7 @@
    changes, all other elements and their order stay"). *)
 From Coq Require Import List ZArith Bool Arith Lia.
 From SC Require Import Base.Res Base.PyList Inst.Heap Inst.ClassTable Inst.Model Inst.Canon Inst.Abs
-  Inst.SpecHelpers Inst.ElemProofs Inst.RefineProofs Inst.CopyProofs Inst.ElemRefine Inst.ElemRefine2 Inst.ElemRefine3 Inst.ElemRefine4 Inst.ElemRefine5 Inst.ElemRefine6 Inst.ElemRefine7 Inst.ElemRefine8 Inst.ElemRefine9 Inst.ElemRefine10 Inst.ElemRefineGuard.
+  Inst.SpecHelpers Inst.ElemProofs Inst.RefineProofs Inst.CopyProofs Inst.ElemRefine Inst.ElemRefine2 Inst.ElemRefine3 Inst.ElemRefine4 Inst.ElemRefine5 Inst.ElemRefine6 Inst.ElemRefine7 Inst.ElemRefine8 Inst.ElemRefine9 Inst.ElemRefine10 Inst.ElemRefine11 Inst.ElemRefineGuard.
 Import ListNotations.
 Open Scope nat_scope.
 
@@ -418,7 +418,7 @@ Qed.
    element type; proper_elems: no sentinel object inside the list; by_value_ok / set_key_free:
    see above.  refines_spec: the model run and spec_helper agree on the result state (the
    receiver itself is returned) and on the error class, and an error leaves the heap alone.
-   STILL MISSING for the full statement: item preparers on update_<item>, keywords / spec elements, nested
+   STILL MISSING for the full statement: keywords / spec elements (key promotion), nested
    receivers, in-place calls on a shared container, classes with invalidated_by.
    (The copy-on-write flag of with_/without_<item> is C06_elem_helpers_copy_refine_guarded_partial.) *)
 Theorem C06_elem_helpers_refine_guarded_partial : forall ct h0 s l a,
@@ -805,6 +805,48 @@ Proof.
   - intros v Hv Hok. now apply with_item_set_prep_copy_guarded.
 Qed.
 
+(* update_<item>(target, new) through an item preparer (Inst/ElemRefine11.v): the new element is
+   prepared, type-checked and put in the place of the addressed one; without a new value
+   nothing is prepared (the element stays).  Lists, dicts and sets of proper scalars, in place
+   and copy-on-write; side conditions as for the versions without preparer. *)
+Theorem C06_update_item_preparer_refine_guarded_partial : forall ct h0 s l a,
+  prep_items ct s l a = true -> fail_at s = None ->
+  (elem_guard ct s l a KList = true -> proper_elems s l a = true ->
+     forall voi v bi, nonref voi = true -> is_missing voi = false -> nonref v = true ->
+       vscalar v || by_value_ok ct s l a voi bi = true ->
+       refines_spec ct h0 s l (HUpdateItem a) (mkh [voi; v] true true VMissing false bi None [] None)
+                    (SUpdateItem a) (mkah [abs0 voi; abs0 v] true true AMissing false bi None [] None)) /\
+  (copy_guard ct s l a KList = true -> proper_elems s l a = true ->
+     forall voi v bi, nonref voi = true -> is_missing voi = false -> nonref v = true ->
+       vscalar v || by_value_ok ct s l a voi bi = true ->
+       copy_refines_spec ct h0 s l (HUpdateItem a) (mkh [voi; v] false true VMissing false bi None [] None)
+                         (SUpdateItem a) (mkah [abs0 voi; abs0 v] false true AMissing false bi None [] None)) /\
+  (elem_guard ct s l a KDict = true -> dict_vals_proper s l a = true ->
+     forall key v, nonref key = true -> is_missing key = false -> nonref v = true ->
+       refines_spec ct h0 s l (HUpdateItem a) (mkh [key; v] true true VMissing false None None [] None)
+                    (SUpdateItem a) (mkah [abs0 key; abs0 v] true true AMissing false None None [] None)) /\
+  (copy_guard ct s l a KDict = true -> dict_vals_proper s l a = true ->
+     forall key v, nonref key = true -> is_missing key = false -> nonref v = true ->
+       copy_refines_spec ct h0 s l (HUpdateItem a) (mkh [key; v] false true VMissing false None None [] None)
+                         (SUpdateItem a) (mkah [abs0 key; abs0 v] false true AMissing false None None [] None)) /\
+  (elem_guard ct s l a KSet = true ->
+     forall voi v, vscalar voi = true -> nonref v = true -> set_update_ok ct s l a voi v = true ->
+       refines_spec ct h0 s l (HUpdateItem a) (mkh [voi; v] true true VMissing false None None [] None)
+                    (SUpdateItem a) (mkah [abs0 voi; abs0 v] true true AMissing false None None [] None)) /\
+  (copy_guard ct s l a KSet = true ->
+     forall voi v, vscalar voi = true -> nonref v = true -> set_update_ok ct s l a voi v = true ->
+       copy_refines_spec ct h0 s l (HUpdateItem a) (mkh [voi; v] false true VMissing false None None [] None)
+                         (SUpdateItem a) (mkah [abs0 voi; abs0 v] false true AMissing false None None [] None)).
+Proof.
+  intros ct h0 s l a P Hfa. repeat split.
+  - intros G Pe voi v bi Hv Hm Hnv Hbv. now apply update_item_list_prep_guarded.
+  - intros G Pe voi v bi Hv Hm Hnv Hbv. now apply update_item_list_prep_copy_guarded.
+  - intros G Vp key v Hk Hm Hnv. now apply update_item_dict_prep_guarded.
+  - intros G Vp key v Hk Hm Hnv. now apply update_item_dict_prep_copy_guarded.
+  - intros G voi v Hv Hnv Hok. now apply update_item_set_prep_guarded.
+  - intros G voi v Hv Hnv Hok. now apply update_item_set_prep_copy_guarded.
+Qed.
+
 (* non-vacuity: the example class with `_prepare_x = lambda x: x + 10` on xs and t *)
 Example C06_preparer_examples :
   elem_guard ex_ct_prep ex_state 0 1 KList = true /\ prep_items ex_ct_prep ex_state 0 1 = true /\
@@ -816,6 +858,11 @@ Example C06_preparer_examples :
     = OSet [VInt 2; VInt 0; VInt 11] /\
   nth 3 (heap (snd (run_helper ex_ct_prep 0 (HWithItem 3) (mkh [VInt (-10)] true true VMissing false None None [] None) ex_state))) (OList [])
     = OSet [VInt 2; VInt 0] /\
+  set_update_ok ex_ct_prep ex_state 0 3 (VInt 0) (VInt (-5)) = true /\
+  nth 1 (heap (snd (run_helper ex_ct_prep 0 (HUpdateItem 1) (mkh [VInt 0; VInt 3] true true VMissing false None None [] None) ex_state))) (OList [])
+    = OList [VInt 1; VInt 13; VInt 1; VInt 0] /\
+  nth 3 (heap (snd (run_helper ex_ct_prep 0 (HUpdateItem 3) (mkh [VInt 0; VInt (-5)] true true VMissing false None None [] None) ex_state))) (OList [])
+    = OSet [VInt 2; VInt 5] /\
   fst (run_helper ex_ct_prep 0 (HWithItem 1) (mkh [VStr 1] true true VMissing false None None [] None) ex_state) = Err TypeErr /\
   fst (run_helper ex_ct_prep 0 (HWithItem 1) (mkh [VStr 1] true true (VInt 9) false None None [] None) ex_state) = Err IndexErr.
 Proof. vm_compute. repeat split. Qed.
@@ -882,6 +929,7 @@ Print Assumptions C06_missing_guard_examples.
 Print Assumptions C06_dict_set_change_item_refine_guarded_partial.
 Print Assumptions C06_dict_set_change_examples.
 Print Assumptions C06_with_item_preparer_refine_guarded_partial.
+Print Assumptions C06_update_item_preparer_refine_guarded_partial.
 Print Assumptions C06_preparer_examples.
 Print Assumptions C06_by_value_transforms_argument_refuted.
 Print Assumptions C06_examples.
